@@ -305,12 +305,12 @@ Do(s)         == Known(s) /\ Arrived(s) /\ m' = Step(s) /\ UNCHANGED <<avail, cl
 ANeedLine     == m.pc = "need" /\ Do(m)
 AParseDone    == m.pc = "parsed" /\ Do(m)
 AExec(t)      == m.pc = "exec" /\ m.ops # <<>> /\ Head(m.ops).t = t /\ Do(m)
-AProbe        == AExec("probe")
-AReadData     == AExec("read")
-ADefAlias     == AExec("alias")
-ASetOpt       == AExec("port") \/ AExec("verb")
-AAssign       == AExec("assign")
-AHereLoop     == AExec("hdloop")
+AProbe        == TRUE /\ AExec("probe")
+AReadData     == TRUE /\ AExec("read")
+ADefAlias     == TRUE /\ AExec("alias")
+ASetOpt       == TRUE /\ (AExec("port") \/ AExec("verb"))
+AAssign       == TRUE /\ AExec("assign")
+AHereLoop     == TRUE /\ AExec("hdloop")
 AFlush        == m.pc = "exec" /\ m.ops = <<>> /\ Do(m)
 ASyntaxError  == m.pc = "synerr" /\ Do(m)
 Machine == ANeedLine \/ AParseDone \/ AProbe \/ AReadData \/ ADefAlias \/ ASetOpt \/ AAssign
@@ -430,7 +430,8 @@ Entry(s) ==
                    off |-> Bytes([s EXCEPT !.eof = IF @ = "open" THEN "nl" ELSE @], s.trace[i].off)]],
     status |-> s.st,
     err    |-> s.err,
-    echo   |-> s.echo ]
+    echo   |-> s.echo,
+    skip   |-> s.skip ]
 
-Catalogue == Finished => PrintT(ToJson(Entry(m)))
+Catalogue == m.pc = "done" => PrintT(ToJson(Entry(m)))
 =============================================================================
